@@ -89,6 +89,8 @@ def draw_channel(g, doc):
     cfg = {"channel": ch, "codec": "utf-8", "explicit": True, "newline": "\n"}
     ascii_only = all(ln.isascii() for ln in doc["lines"])
     if ch in FILE_CHANNELS:
+        if g.random() < 0.4:
+            cfg["path_slot"] = g.randrange(2)        # files are overwritten in place between reads
         text = "\n".join(doc["lines"])
         codecs = ["utf-8", "utf-8-sig", "utf-16"]
         for c in ("latin-1", "cp1252"):
